@@ -403,24 +403,33 @@ theorem updateOdometer_spec (d : Nat → Nat) (hd : ∀ k, 0 < d k) (n : Nat) (h
   rw [setAt_same, enc_setAt_ge _ _ _ _ _ (le_refl _)]
   omega
 
-theorem freeze_apply (n : Nat) (f : Nat → Nat) (k : Nat) (hk : k < n) : freeze n f k = f k := by
-  simp [freeze, fnOfList, listOfFn, hk]
+theorem fnOfList_listOfFn (n : Nat) (f : Nat → Nat) (k : Nat) (hk : k < n) : (fnOfList (listOfFn n f)) k = f k := by
+  simp [fnOfList, listOfFn, hk]
+
+theorem iterOdo_zero (n : Nat) (d : Nat → Nat) (k : Nat) : iterOdo n d 0 k = 0 := by
+  simp only [iterOdo, iterOdoL, fnOfList]
+  by_cases hk : k < n
+  · simp [List.getD, hk]
+  · simp [List.getD, hk]
+
+theorem iterOdo_succ (n : Nat) (d : Nat → Nat) (i k : Nat) (hk : k < n) :
+    iterOdo n d (i + 1) k = updateOdometer n (iterOdo n d i) d k :=
+  fnOfList_listOfFn n _ k hk
 
 theorem iterOdo_spec (d : Nat → Nat) (hd : ∀ k, 0 < d k) (n : Nat) (hn : 0 < n) : ∀ i,
     (∀ k, k < n → iterOdo n d i k < d k) ∧ enc d (iterOdo n d i) n = i % prodN d n
   | 0 => by
-    refine ⟨fun k _ => hd k, ?_⟩
+    refine ⟨fun k _ => by rw [iterOdo_zero]; exact hd k, ?_⟩
     have : ∀ m, enc d (fun _ => 0) m = 0 := by
       intro m; induction m with
       | zero => rfl
       | succ m ih => simp [enc, ih]
-    show enc d (fun _ => 0) n = _
-    rw [this, Nat.zero_mod]
+    rw [enc_congr d d _ (fun _ => 0) n (fun _ _ => rfl) (fun k _ => iterOdo_zero n d k), this, Nat.zero_mod]
   | i + 1 => by
     obtain ⟨h1, h2⟩ := iterOdo_spec d hd n hn i
     obtain ⟨h3, h4⟩ := updateOdometer_spec d hd n hn (iterOdo n d i) h1
     have hf : ∀ k, k < n → iterOdo n d (i + 1) k = updateOdometer n (iterOdo n d i) d k :=
-      fun k hk => freeze_apply n _ k hk
+      fun k hk => iterOdo_succ n d i k hk
     refine ⟨fun k hk => by rw [hf k hk]; exact h3 k hk, ?_⟩
     rw [enc_congr d d _ _ n (fun _ _ => rfl) hf, h4, h2, Nat.mod_add_mod]
 
